@@ -13,12 +13,8 @@ From HV Require Import Sim.Model.
 Import ListNotations.
 Open Scope N_scope.
 
-(* hook kinds a slice of the modelled flows uses (no passthrough / keyed-singleton hooks) *)
-Definition slice_kind (h : hook) : bool :=
-  match h with
-  | HStreamT _ _ | HStreamN _ _ | HKeyedT _ _ | HKeyedN _ _ | HSingle _ _ _ => true
-  | _ => false
-  end.
+(* every hook kind of sim/runtime.rs that SimBuilder::batch creates for a slice *)
+Definition slice_kind (h : hook) : bool := true.
 
 Fixpoint push_key (k v : N) (m : list (N * list N)) : list (N * list N) :=
   match m with
